@@ -249,8 +249,7 @@ fn run_peer(steps: &[Step], tags: &HashMap<String, u64>, rng: &mut Rng) -> PeerR
         let tab = observe_orders(&dm);
         let r = std::panic::catch_unwind(std::panic::AssertUnwindSafe(|| if s.sys { dm.update_system(&s.text) } else { dm.update(&s.text) }));
         let verdict = match r { Ok(Ok(())) => 0, Ok(Err(e)) => err_code(&e), Err(_) => 97 };
-        let mut post = observe(&serde_json::to_value(&dm).unwrap(), tags, false);
-        if verdict >= 8 { if let Some(n) = post.nss.first_mut() { if let Some(e) = n.ents.first_mut() { e.depr = !e.depr; } } }
+        let post = observe(&serde_json::to_value(&dm).unwrap(), tags, false);
         pr.obs.push(verdict);
         enc_model(&post, &mut pr.obs);
         if verdict != 0 && post != pre { pr.changed_on_refusal += 1; }
